@@ -67,6 +67,10 @@ pub fn setup_board(fen: &str, moves: &[String]) -> Option<Board> {
 }
 
 pub fn run_case(c: &Case) {
+    let _ = run_case_best(c);
+}
+
+pub fn run_case_best(c: &Case) -> Option<Ply> {
     println!(
         "S fen=[{}] moves=[{}] depth={} nodes={} stop={} cache={}{}",
         c.fen,
@@ -79,7 +83,7 @@ pub fn run_case(c: &Case) {
     );
     let Some(board) = setup_board(&c.fen, &c.moves) else {
         println!("X bad-case");
-        return;
+        return None;
     };
     if c.cache != "keep" {
         TRANSPOSITION_TABLE.write().unwrap().clear();
@@ -127,6 +131,10 @@ pub fn run_case(c: &Case) {
         sum,
         root.map_or("-".to_string(), |e| format!("{}:{}:{}:{}", e.score, e.depth, bound_code(e.bound), move_fields(&e.best_ply)))
     );
+    sv::best_move(&search).or_else(|| {
+        let mut b = board.clone();
+        b.get_legal_moves().first().copied()
+    })
 }
 
 /// positions: seeds, bench FENs, and positions reached by random play (kept with their move history)
@@ -277,6 +285,33 @@ pub fn search_stream(args: &[String]) {
             }
         }
         "mate" => mate_mode(&mut rng, count, maxdepth, shard, of),
+        "game" => {
+            // a game as a GUI plays it: search, play the answer, a random reply, search again — the cache is kept throughout
+            let plies: usize = arg(args, "plies", 8);
+            for (fen, moves0) in pos.iter().take(count) {
+                if !mine(&mut idx) {
+                    continue;
+                }
+                let mut moves = moves0.clone();
+                for step in 0..plies {
+                    let Some(mut b) = setup_board(fen, &moves) else { break };
+                    if b.get_legal_moves().is_empty() || b.get_halfmove_clock() >= 98 {
+                        break;
+                    }
+                    let d = if step % 2 == 0 { maxdepth } else { maxdepth.saturating_sub(1).max(1) };
+                    let best = run_case_best(&Case { fen: fen.clone(), moves: moves.clone(), depth: d, nodes: None, stop: 0, cache: if step == 0 { "fresh" } else { "keep" }, tag: String::new() });
+                    let Some(bm) = best else { break };
+                    moves.push(bm.to_notation());
+                    b.make_move(bm);
+                    let replies = b.get_legal_moves();
+                    if replies.is_empty() {
+                        break;
+                    }
+                    let r = replies[rng.below(replies.len() as u64) as usize];
+                    moves.push(r.to_notation());
+                }
+            }
+        }
         _ => {}
     }
     println!("END");
